@@ -392,10 +392,10 @@ def list_files(root):
 def attempt_write(p, dst):
     """p.write(dst) -> ("raised", exception class name) | ("stored", text).  Only the library's own two
     signals for 'this spec yields nothing' are caught; anything else propagates (harness error)."""
-    from insights.core.exceptions import ContentException, CalledProcessError
+    from insights.core.exceptions import ContentException, CalledProcessError, NoFilterException
     try:
         p.write(dst)
-    except (ContentException, CalledProcessError) as ex:
+    except (ContentException, CalledProcessError, NoFilterException) as ex:
         stored = None
         if os.path.exists(dst):
             with open(dst, newline="") as fh:
@@ -411,6 +411,7 @@ def make_provider(sp, kind, indir, lines, cleaner_case):
     """A fresh broker (HostContext rooted at indir, a fresh Cleaner) and the provider the spec `kind` yields."""
     from insights.core import dr
     from insights.core.context import HostContext
+    from insights.core.exceptions import ContentException, CalledProcessError, NoFilterException
     comp = sp[kind]
     os.makedirs(os.path.join(indir, "c10"), exist_ok=True)
     fname = os.path.join(indir, "c10", ("filt" if kind == "filt" else "plain") + ".txt")
@@ -422,9 +423,27 @@ def make_provider(sp, kind, indir, lines, cleaner_case):
     b[HostContext] = HostContext(root=indir)
     b["cleaner"] = build_cleaner(cleaner_case)
     b["verif_c10_content"] = list(lines)
-    p = comp(b)
+    try:
+        p = comp(b)
+    except (ContentException, CalledProcessError, NoFilterException) as ex:
+        # the spec refuses to yield a provider: an outcome ("dropped at construction"), judged by the oracle
+        return b, comp, Refused(ex)
     b[comp] = p
     return b, comp, p
+
+
+class Refused(object):
+    """Stands for a provider the datasource refused to build; behaves as 'nothing to write'."""
+
+    def __init__(self, ex):
+        self.ex = ex
+
+    @property
+    def content(self):
+        raise self.ex
+
+    def write(self, dst):
+        raise self.ex
 
 
 def run_allow(case, root=None):
